@@ -23,7 +23,7 @@ var recSeq = ev.New("C16", "proxy-sequences",
 		"Origin and client parse what arrives with a harness RFC 9112 parser; a reference model written from the property text says which messages must/may/must not arrive and what they must contain. "+
 		"Non-trivial: at least 2 requests forwarded with pipelining window >= 2 and (a request body or a Connection-nominated field). Distinct key: methods, body kinds, length classes, statuses, end kind, window class, auth class").
 	Require("pipelined", "req-body", "req-chunked", "req-trailers", "nominated-present", "upgrade-present", "proxy-auth-present",
-		"auth-enabled", "bad-then-good", "host-change", "later-connect", "close-req", "close-resp", "interim", "interim-delivered", "expect-got-100",
+		"auth-enabled", "auth-enabled-no-users", "auth-users-nil", "auth-users-empty", "auth-users-several", "bad-then-good", "host-change", "later-connect", "close-req", "close-resp", "interim", "interim-delivered", "expect-got-100",
 		"head", "resp-chunked", "resp-close-delimited", "depth>16", "3xx", "origin-truncate", "origin-close-silent", "client-abort", "never-authenticated")
 
 func lenClass(n int) string {
@@ -153,7 +153,7 @@ func classify(p *plan, e *expectation, o *obs) (key string, nt bool, labels []st
 	if p.Window > 16 {
 		wc = "w17+"
 	}
-	fmt.Fprintf(&kb, "|%s|%s|auth=%v,%d", e.EndKind, wc, p.AuthEnabled, e.FirstFwd)
+	fmt.Fprintf(&kb, "|%s|%s|auth=%v,%d,%d", e.EndKind, wc, p.AuthEnabled, p.UserTable, e.FirstFwd)
 	nt = pipelined && (body || nominated)
 	for l := range lab {
 		labels = append(labels, l)
@@ -316,4 +316,59 @@ func TestFindings(t *testing.T) {
 		}
 		recFind.Case(sig, false, lab)
 	}
+}
+
+var recAuth = ev.New("C16", "auth-table",
+	"bounded-exhaustive: user table {nil, empty slice, one user, several users} x credentials of the first request {none, unknown user, alice, bob, Digest} "+
+		"x first request {GET, HEAD, POST with body} followed by a second plain GET with the same credentials; judged by the same model "+
+		"(with no configured user every request must be answered 407 or the connection must end, and nothing may reach the origin). Non-trivial: authentication enabled with an empty table").
+	Require("no-users:nil", "no-users:empty", "accepted", "rejected")
+
+// TestAuthTableBoundary enumerates the authentication configuration boundary deterministically.
+func TestAuthTableBoundary(t *testing.T) {
+	creds := []struct{ name, value string }{
+		{"none", ""}, {"unknown", "Basic " + badToken}, {"alice", "Basic " + goodToken}, {"bob", "basic " + bobToken}, {"digest", "Digest username=\"alice\""},
+	}
+	tables := []struct {
+		name string
+		kind int
+	}{{"nil", usersNil}, {"empty", usersEmpty}, {"one", usersOne}, {"several", usersSeveral}}
+	for _, tb := range tables {
+		for _, cr := range creds {
+			for _, method := range []string{"GET", "HEAD", "POST"} {
+				mk := func(path string, m string) reqPlan {
+					r := req1(m, path, kv{"User-Agent", " h"})
+					if cr.value != "" {
+						r.Hdr = append(r.Hdr, kv{"Proxy-Authorization", " " + cr.value})
+					}
+					return r
+				}
+				first := mk("/first", method)
+				if method == "POST" {
+					first.Body = bodySpec{Kind: bodyCL, Seed: 11, Len: 20, HighOnly: true}
+				}
+				p := &plan{AuthEnabled: true, UserTable: tb.kind, Window: 2, ClientAbort: -1,
+					Reqs: []reqPlan{first, mk("/second", "GET")}, Resps: []respPlan{resp1(200, 5), resp1(200, 7)}}
+				e := model(p)
+				o := execute(t, p)
+				v := judge(p, e, o)
+				if v.sig != "" {
+					t.Fatalf("SIG=C16/%s users=%s credentials=%s first=%s: %s\norigin received:\n%s\nclient received:\n%s", v.sig, tb.name, cr.name, method, v.detail, clip(o.OriginRaw), clip(o.ClientRaw))
+				}
+				for _, k := range v.known {
+					recAuth.KnownHit(k)
+				}
+				noUsers := tb.kind == usersNil || tb.kind == usersEmpty
+				labels := []string{"rejected"}
+				if e.FirstFwd >= 0 {
+					labels = []string{"accepted"}
+				}
+				if noUsers {
+					labels = append(labels, "no-users:"+tb.name)
+				}
+				recAuth.Case(tb.name+"|"+cr.name+"|"+method, noUsers, labels...)
+			}
+		}
+	}
+	recAuth.Exhaustive(true)
 }
